@@ -100,8 +100,9 @@ def variant() -> str:
 
 
 def translate(ctx: C.Ctx) -> List[str]:
+    from props import c14
     variant()
-    return list(_VARIANT["broken"])
+    return list(_VARIANT["broken"]) + c14.translate_backends(ctx)
 
 
 def idb(s: str) -> List[int]:
